@@ -593,6 +593,7 @@ def stepApi (st : St) : Api → Option St
     let pw ← st.go p
     match pw with
     | .slice arr _ _ _ => do
+      let _ ← cellsOf st.mem arr          -- Add hashes the path first: it reads every step
       let m ← setAdd equivPath (freezeCaller st.mem arr) a pw h
       pure (st.withMem m)
     | .null => do
